@@ -417,6 +417,9 @@ func (e *Enc) contractCall(fr *Frame, cs *callSite, fc *FuncContract) Val {
 	}
 	pctx := &ExprCtx{e: e, st: post, old: pre, params: params, pkg: pkg, results: results, resNames: resNames, fc: fc}
 	for _, en := range fc.Ensures {
+		if cexprMentions(en.Expr, "ret") || cexprMentions(en.Expr, "retn") {
+			continue // postcondition about the callee's internal calls: not visible to callers
+		}
 		g := e.safeBool(pctx, en, "ensures of "+short)
 		e.s.Assume(Imp(fr.curReach, g))
 	}
